@@ -30,7 +30,10 @@ LIT_VALUES = [0, 1, -1, 7, 2 ** 70, -(2 ** 65), True, False, None, 0.5, -1.25, 1
 PY_VALUES = ["float('nan')", "float('inf')", "-float('inf')", "[1, 2, 3]", "(1, 'a', None)", "{'a': 1, 'b': [2, 3]}",
              "{1, 2, 3}", "frozenset({'a'})", "[]", "()", "{}", "(1,)", "Fraction(1, 3)", "Decimal('1.10')",
              "date(2020, 2, 29)", "b'bytes\\x00'", "complex(1, -2)", "range(3)", "[[1, [2, [3]]], {'k': (1, 2)}]",
-             "{(1, 2): 'tuple key'}", "OrderedDict([('z', 1), ('a', 2)])", "2 ** 100", "[float('nan')]"]
+             "{(1, 2): 'tuple key'}", "OrderedDict([('z', 1), ('a', 2)])", "2 ** 100", "[float('nan')]",
+             # instances of SUBCLASSES of int / float / str (seeded/C04_r4: written as the plain literal)
+             "HTTPStatus.NOT_FOUND", "HTTPStatus.OK", "Signals.SIGINT", "c15lits.Rate(0.25)", "c15lits.Code('GB-LDN')",
+             "c15lits.Num(7)", "c15lits.Basis.ACT360", "[HTTPStatus.OK, 200]"]
 INPUT_VALUES = [0, 1, -5, 100, 2 ** 64, 2.5, "s", True]
 INPUT_PY = ["(1, 2)", "[1, 2]", "{'a': 1}", "Fraction(1, 2)", "float('inf')"]
 
@@ -337,18 +340,16 @@ class Gen:
         return out
 
     def fix_d37(self):
-        """D37 (C10 domain): an auto/relative reference to a child space (or to something below it) is
-        re-bound in sub spaces to a counterpart that does not exist there (child spaces are not inherited);
-        whether the derived reference ends up null depends on the order of the edits."""
+        """D37 (C10 domain, repaired in /repo): an auto/relative reference to a child space (or to something below it)
+        was re-bound in sub spaces to a counterpart that does not exist there (child spaces are not inherited);
+        whether the derived reference ended up null depended on the order of the edits.  Generated again (counted)."""
         for o in self.ops:
             if o["op"] == "ref" and o["owner"] and o["value"]["t"] == "obj" and o.get("refmode") != "absolute":
                 sp = self.spaces[tuple(o["owner"])]
                 tp = o["value"]["path"]
                 inside = tp[:len(sp.path)] == sp.path and (len(tp) > len(sp.path) + 1 or tuple(tp) in self.spaces) and tp != sp.path
                 if inside and self.has_subs(sp):
-                    self.filtered["D37"] += 1
-                    o["refmode"] = "absolute"
-                    o.pop("how", None)
+                    self.filtered["D37"] += 1      # counted only: D37 is repaired in /repo (65b8db4), the shape is generated
                 # D36_relative_ref_base_first: a RELATIVE reference to an object outside the owner's tree can only
                 # exist next to sub spaces that override the name; the reader sets the base's reference first and fails
                 if o.get("refmode") == "relative" and tp[:len(sp.path)] != sp.path and self.has_subs(sp):
